@@ -37,7 +37,9 @@ def _replay_wrap(stem, vals):
     msgs = []
     rng = np.random.RandomState(4)
     cells = [(np.array([[4.0, 0, 0], [1.2, 5.0, 0], [-0.7, 0.9, 6.0]]), np.array([0.5, -2.0, 3.0])), (np.diag([3.0, 4.0, 5.0]), np.zeros(3)),
-             (np.array([[3.0, 0.4, -0.3], [0.2, 3.5, 0.6], [-0.5, 0.1, 4.0]]), np.array([-1.0, 0.25, 2.0]))]
+             (np.array([[3.0, 0.4, -0.3], [0.2, 3.5, 0.6], [-0.5, 0.1, 4.0]]), np.array([-1.0, 0.25, 2.0])),
+             # left-handed cells (third vector reversed; first two exchanged)
+             (np.array([[4.0, 0, 0], [1.2, 5.0, 0], [0.7, -0.9, -6.0]]), np.array([0.5, -2.0, 3.0])), (np.array([[0.2, 3.5, 0.6], [3.0, 0.4, -0.3], [-0.5, 0.1, 4.0]]), np.array([-1.0, 0.25, 2.0]))]
     try:
         for (V, o), pbc in itertools.product(cells, PBCS):
             s = rng.uniform(-2.5, 3.5, (7, 3))
@@ -64,7 +66,7 @@ def _replay_wrap(stem, vals):
                 break
     except Exception as e:
         msgs.append('raised %s: %s' % (type(e).__name__, e))
-    return (len(msgs) > 0, '; '.join(msgs[:4]) if msgs else 'float replay over 3 cells x 8 pbc found no disagreement')
+    return (len(msgs) > 0, '; '.join(msgs[:4]) if msgs else 'float replay over 5 cells (2 left-handed) x 8 pbc found no disagreement')
 
 
 def _wrap_group(pbc):
@@ -245,13 +247,13 @@ def normalize_family(tier, seed):
 
 @group('wrap.family', kind='bounded', files=[SYSF, BOXF], functions=['System.wrap'],
        clause='float conformance of the wrap contract with several atoms, extra per-atom properties, atoms far outside and exactly on faces',
-       rule='3 cells x 8 pbc x 7 atoms (one on faces/corners) with seeded positions up to 3 cells outside; non-trivial = every case')
+       rule='5 cells (2 left-handed) x 8 pbc x 7 atoms (one on faces/corners) with seeded positions up to 3 cells outside; non-trivial = every case')
 def wrap_family(tier, seed):
     rep, text = _replay_wrap('wrap', {})
     from pyvc.native import atomman
     fails = [] if not rep else [{'obligation': 'wrap.float', 'key': text[:80], 'input': 'see detail', 'detail': text}]
     files = {rel: hashlib.sha256(open(os.path.join(REPO, rel), 'rb').read()).hexdigest() for rel in (SYSF, BOXF)}
-    return {'family': 'wrap float conformance', 'evaluations': 24, 'distinct_nontrivial': 24, 'rule': '3 cells x 8 pbc', 'samples': [{'cells': 3, 'pbc': 8}], 'failures': fails, 'files': files}
+    return {'family': 'wrap float conformance', 'evaluations': 40, 'distinct_nontrivial': 40, 'rule': '5 cells (2 left-handed) x 8 pbc', 'samples': [{'cells': 5, 'pbc': 8}], 'failures': fails, 'files': files}
 
 
 # ----------------------------------------------------------------------------
@@ -548,3 +550,13 @@ def _normalize_group(handed):
 
 for _h in ('right', 'left'):
     _normalize_group(_h)
+
+
+# ----------------------------------------------------------------------------
+# callee contracts this property's proofs ASSUME are part of this check: the wrap and normalize groups above replace Box.position_cartesian_to_relative by its C01 contract
+# (inverse of position_relative_to_cartesian, through the reciprocal vectors).  Modular verification only carries the property if that contract is itself discharged on the
+# same tree, so the C01 groups that establish it run here as well (same obligations, same source, reported under this property when they fail).
+from . import c01 as _c01
+for _g in _c01.GROUPS:
+    if _g.name in ('Box.position_maps', 'Box.position_maps.list_input', 'Box.reciprocal_vects'):
+        GROUPS.append(_g)
